@@ -212,6 +212,8 @@ def rand_opts(rng: random.Random, n: int):
         o['is_build_models'] = True
     if rng.random() < 0.15:
         o['auto_build_trunk'] = False
+    if rng.random() < 0.12:
+        o['nolock'] = True      # a per-rule option (rules do not freeze their own attributes): the rule SET locks all the same
     return o
 
 
